@@ -157,3 +157,419 @@ Example nd_partition_example :
         [0;2;0]; [0;2;1]; [1;2;0]; [1;2;1]]
   /\ length (index_space [2; 3; 2]) = 12.
 Proof. vm_compute. split; reflexivity. Qed.
+
+(* ==== the blockwise public functions as WHOLE functions (Model/Blocks.v) ===================
+   find_minimum_times and distance_pairwise with their error branches, the selectors they
+   build, the tuple picking `(chunk1[0], chunk2[1])`, numpy's resolution of one selector on
+   arrays of different shapes, the kernels run on the views they are handed, the pool's order
+   of execution; block sizes are Python ints of ANY sign.  Then the model amplitudes and the
+   sensitivities block by block (on the model of C08, Model/Amplitudes.v), entry by entry.
+   All axiom-free; the numeric type is abstract (a Num record or two operations), so every
+   equality below is bit for bit for floats too. *)
+From Arim Require Import Base.Num Model.Blocks Proofs.BlocksProofs.
+From Arim Require Model.Amplitudes Proofs.BlocksSensProofs.
+
+(* ---- Python arithmetic on block sizes ---- *)
+(* math.ceil(a / b) on a positive block size is the ceiling of Model/Chunk.v *)
+Theorem py_ceil_is_ceil_div : forall a b, 1 <= b ->
+  py_ceil_div (Z.of_nat a) (Z.of_nat b) = Some (Z.of_nat (ceil_div a b)).
+Proof. exact py_ceil_div_nat. Qed.
+
+(* chunk_array with an integer block size of any sign: positive = the selectors of
+   Model/ChunkND.v; zero raises; NEGATIVE YIELDS NOTHING (numchunks <= 0) without raising *)
+Theorem chunk_array_any_sign : forall shape b axis ax,
+  normalise_axis (length shape) axis = Some ax ->
+  ((1 <= b)%Z -> chunk_array_py shape b axis
+                 = inr (raw_selectors (length shape) ax (nth ax shape 0) (Z.to_nat b)))
+  /\ (b = 0%Z -> chunk_array_py shape b axis = inl ZeroDivisionError)
+  /\ ((b < 0)%Z -> chunk_array_py shape b axis = inr []).
+Proof.
+  intros shape b axis ax Hn. split; [|split].
+  - intros Hb. exact (chunk_array_py_pos shape b axis ax Hb Hn).
+  - intros ->. exact (chunk_array_py_zero shape axis ax Hn).
+  - intros Hb. exact (chunk_array_py_neg shape b axis ax Hb Hn).
+Qed.
+
+Theorem chunk_array_error_iff : forall shape b axis e,
+  chunk_array_py shape b axis = inl e <->
+  (e = IndexError /\ normalise_axis (length shape) axis = None) \/
+  (e = ZeroDivisionError /\ b = 0%Z /\ normalise_axis (length shape) axis <> None).
+Proof. exact chunk_array_py_error. Qed.
+
+(* the two extreme block sizes: one block holding everything / one block per index *)
+Theorem chunks_extreme_blocks : forall len,
+  (forall b, 1 <= len <= b -> chunks len b = [(0, len)])
+  /\ chunks len 1 = map (fun i => (i, i + 1)) (seq 0 len).
+Proof. intros len. split; [intros b H; exact (chunks_block_large len b H) | exact (chunks_block_one len)]. Qed.
+
+(* ---- tasks that read-modify-write their own cells (accumulating kernels) ---- *)
+(* a cell ends up holding what its ONE owner makes of the initial content ... *)
+Theorem rmw_owner_decides : forall (V : Type) (ts : list (rtask V)) (a : arr V) t i j,
+  NoDup (flat_map r_cells ts) -> In t ts -> In (i, j) (r_cells t) ->
+  rrun ts a i j = r_fun t i j (a i j).
+Proof. exact rrun_in. Qed.
+
+(* ... hence any execution order gives the same array, cell by cell *)
+Theorem schedule_independent_rmw : forall (V : Type) (ts ts' : list (rtask V)) (a : arr V) i j,
+  NoDup (flat_map r_cells ts) -> Permutation ts ts' -> rrun ts a i j = rrun ts' a i j.
+Proof. exact rrun_permutation. Qed.
+
+(* ---- find_minimum_times ---- *)
+(* the views really handed to the tasks (through the selectors, `(chunk1[0], chunk2[1])`
+   and numpy's resolution on (n,m), (m,p), (n,p)): output views pairwise disjoint and
+   covering, complete rows of time_1, complete columns of time_2 *)
+Theorem fmt_write_regions_partition : forall n m p block_size, 1 <= m -> (1 <= block_size)%Z ->
+  exists adj tasks,
+    py_ceil_div block_size (Z.of_nat m) = Some adj /\ fmt_submit n m p adj = inr tasks /\
+    length tasks = ceil_div n (Z.to_nat adj) * ceil_div p (Z.to_nat adj) /\
+    Permutation (flat_map (fun tv => box_cells (fv_res tv)) tasks) (index_space [n; p]) /\
+    NoDup (flat_map (fun tv => box_cells (fv_res tv)) tasks) /\
+    (forall tv, In tv tasks ->
+       exists r c, fv_t1 tv = [r; (0, m)] /\ fv_t2 tv = [(0, m); c] /\ fv_res tv = [r; c]).
+Proof. exact fmt_views_partition. Qed.
+
+(* the kernel is a read-modify-write kernel: on its output view it continues the scan from
+   what the view contains, and touches nothing else *)
+Theorem fmt_kernel_effect : forall (T : Type) ltb add (rows cols : list (list T)) r0 c0 (o : arr (cellv T)) i j,
+  (~ In (i, j) (list_prod (seq r0 (length rows)) (seq c0 (length cols))) ->
+   fmt_kernel ltb add rows cols r0 c0 o i j = o i j)
+  /\ (forall r c, r0 <= i -> c0 <= j -> nth_error rows (i - r0) = Some r -> nth_error cols (j - c0) = Some c ->
+      fmt_kernel ltb add rows cols r0 c0 o i j = mp_scan ltb add 0 r c (o i j)).
+Proof.
+  intros T ltb add rows cols r0 c0 o i j. split.
+  - exact (fmt_kernel_out T ltb add rows cols r0 c0 o i j).
+  - intros r c. exact (fmt_kernel_in T ltb add rows cols r0 c0 o i j r c).
+Qed.
+
+(* MAIN: every block size >= 1 (1, not dividing the sizes, larger than the problem), every
+   thread count >= 1, every order in which the pool runs the tasks: the result is the
+   unblocked min-plus product, every cell with its minimum AND its index (first index
+   reaching the minimum: minplus_first in Props/C01.v) — no hypothesis on the order of T *)
+Theorem find_minimum_times_blocked_is_unblocked : forall (T : Type) ltb add m (t1 t2c : list (list T))
+    block_size numthreads sched,
+  rows_have m t1 -> rows_have m t2c -> 1 <= m ->
+  (1 <= block_size)%Z -> (1 <= numthreads)%Z -> (forall l, Permutation l (sched l)) ->
+  find_minimum_times ltb add m m t1 t2c block_size numthreads sched = inr (minplus ltb add t1 t2c).
+Proof. exact find_minimum_times_unblocked. Qed.
+
+Theorem find_minimum_times_config_independent : forall (T : Type) ltb add m (t1 t2c : list (list T))
+    bs bs' nt nt' sched sched',
+  rows_have m t1 -> rows_have m t2c -> 1 <= m ->
+  (1 <= bs)%Z -> (1 <= bs')%Z -> (1 <= nt)%Z -> (1 <= nt')%Z ->
+  (forall l, Permutation l (sched l)) -> (forall l, Permutation l (sched' l)) ->
+  find_minimum_times ltb add m m t1 t2c bs nt sched = find_minimum_times ltb add m m t1 t2c bs' nt' sched'.
+Proof. exact find_minimum_times_block_independent. Qed.
+
+(* the error branches in the order of the source: shapes, block_size / m with m = 0,
+   ThreadPoolExecutor(max_workers <= 0), chunk_array with an adjusted block of 0 *)
+Theorem find_minimum_times_error_branches : forall (T : Type) ltb add m m_ (t1 t2c : list (list T))
+    block_size numthreads sched,
+  (m <> m_ -> find_minimum_times ltb add m m_ t1 t2c block_size numthreads sched = inl ValueError)
+  /\ (m = m_ -> m = 0 -> find_minimum_times ltb add m m_ t1 t2c block_size numthreads sched = inl ZeroDivisionError)
+  /\ (m = m_ -> 1 <= m -> (numthreads <= 0)%Z ->
+      find_minimum_times ltb add m m_ t1 t2c block_size numthreads sched = inl ValueError)
+  /\ (m = m_ -> 1 <= m -> (1 <= numthreads)%Z -> (- Z.of_nat m < block_size <= 0)%Z ->
+      find_minimum_times ltb add m m_ t1 t2c block_size numthreads sched = inl ZeroDivisionError).
+Proof. exact find_minimum_times_errors. Qed.
+
+(* OUTSIDE the property's range (block sizes from 1): the statement "the result does not
+   depend on the block size" does NOT extend to negative block sizes — block_size <= -m is
+   accepted without error and every cell stays at (+inf, -1) *)
+Theorem find_minimum_times_negative_block_refuted : forall (T : Type) ltb add m (t1 t2c : list (list T))
+    block_size numthreads sched,
+  1 <= m -> (block_size <= - Z.of_nat m)%Z -> (1 <= numthreads)%Z -> sched [] = [] ->
+  find_minimum_times ltb add m m t1 t2c block_size numthreads sched
+  = inr (tab (length t1) (length t2c) (fun _ _ => None)).
+Proof. exact find_minimum_times_negative_block. Qed.
+
+(* ---- distance_pairwise ---- *)
+Theorem dist_write_regions_partition : forall num1 num2 block_size, (1 <= block_size)%Z ->
+  exists cs tasks,
+    py_ceil_div block_size 6 = Some cs /\ dist_submit num1 num2 cs = inr tasks /\
+    length tasks = ceil_div num1 (Z.to_nat cs) * ceil_div num2 (Z.to_nat cs) /\
+    Permutation (flat_map (fun dv => box_cells (dv_out dv)) tasks) (index_space [num1; num2]) /\
+    NoDup (flat_map (fun dv => box_cells (dv_out dv)) tasks) /\
+    (forall dv, In dv tasks -> dv_out dv = dv_1 dv ++ dv_2 dv /\ length (dv_1 dv) = 1 /\ length (dv_2 dv) = 1).
+Proof. exact dist_views_partition. Qed.
+
+(* MAIN: every block size >= 1, thread count >= 1, order of execution, with or without a
+   preallocated `out=` of the right shape WHATEVER IT CONTAINED: the table of the distances
+   (every entry with the code's order of operations) *)
+Theorem distance_pairwise_blocked_is_unblocked : forall (T : Type) (N : Num T) (P1 P2 : points)
+    out block_size numthreads sched,
+  points_ok P1 = true -> points_ok P2 = true -> out_ok P1 P2 out ->
+  (1 <= block_size)%Z -> (1 <= numthreads)%Z -> (forall l, Permutation l (sched l)) ->
+  distance_pairwise N P1 P2 out block_size numthreads sched = inr (distance_table N P1 P2).
+Proof. intros T N P1 P2 out bs nt sched H1 H2. exact (distance_pairwise_unblocked N P1 P2 H1 H2 out bs nt sched). Qed.
+
+(* both point sets the same object *)
+Theorem distance_pairwise_same_object : forall (T : Type) (N : Num T) (P : points) out bs nt sched,
+  points_ok P = true -> out_ok P P out -> (1 <= bs)%Z -> (1 <= nt)%Z -> (forall l, Permutation l (sched l)) ->
+  distance_pairwise N P P out bs nt sched = inr (distance_table N P P).
+Proof. intros T N P out bs nt sched H. exact (distance_pairwise_unblocked N P P H H out bs nt sched). Qed.
+
+Theorem distance_pairwise_error_branches : forall (T : Type) (N : Num T) (P1 P2 : points) out block_size numthreads sched,
+  (points_ok P1 = false -> distance_pairwise N P1 P2 out block_size numthreads sched = inl InvalidShape)
+  /\ (points_ok P1 = true -> points_ok P2 = false ->
+      distance_pairwise N P1 P2 out block_size numthreads sched = inl InvalidShape)
+  /\ (points_ok P1 = true -> points_ok P2 = true ->
+      forall r c content, out = Some (r, c, content) -> (r, c) <> (length (px P1), length (px P2)) ->
+      distance_pairwise N P1 P2 out block_size numthreads sched = inl InvalidShape)
+  /\ (points_ok P1 = true -> points_ok P2 = true -> out_ok P1 P2 out -> (numthreads <= 0)%Z ->
+      distance_pairwise N P1 P2 out block_size numthreads sched = inl ValueError)
+  /\ (points_ok P1 = true -> points_ok P2 = true -> out_ok P1 P2 out -> (1 <= numthreads)%Z ->
+      (-6 < block_size <= 0)%Z ->
+      distance_pairwise N P1 P2 out block_size numthreads sched = inl ZeroDivisionError).
+Proof. intros T N. exact (distance_pairwise_errors N). Qed.
+
+(* OUTSIDE the property's range: block_size <= -6 computes nothing and returns the zeros, or
+   what `out` contained *)
+Theorem distance_pairwise_negative_block_refuted : forall (T : Type) (N : Num T) (P1 P2 : points)
+    block_size numthreads sched,
+  points_ok P1 = true -> points_ok P2 = true ->
+  (block_size <= -6)%Z -> (1 <= numthreads)%Z -> sched [] = [] ->
+  distance_pairwise N P1 P2 None block_size numthreads sched
+  = inr (tab (length (px P1)) (length (px P2)) (fun _ _ => n0 N))
+  /\ forall content,
+     distance_pairwise N P1 P2 (Some (length (px P1), length (px P2), content)) block_size numthreads sched
+     = inr (tab (length (px P1)) (length (px P2)) (arr_of_table N content)).
+Proof. intros T N P1 P2 bs nt sched H1 H2. exact (distance_pairwise_negative_block N P1 P2 H1 H2 bs nt sched). Qed.
+
+(* ---- the sensitivity loops: one selector on three shapes ---- *)
+Theorem sensitivity_selector_on_every_array : forall np nt ne b, 1 <= b ->
+  sens_submit np nt ne (Z.of_nat b)
+  = inr (map (fun r => Some ([r], [r; (0, ne)], [r; (0, nt)])) (chunks np b)).
+Proof. exact sens_submit_pos. Qed.
+
+Theorem sensitivity_selector_nonpositive_block : forall np nt ne,
+  sens_submit np nt ne 0 = inl ZeroDivisionError /\
+  forall b, (b < 0)%Z -> sens_submit np nt ne b = inr [].
+Proof. exact sens_submit_nonpos. Qed.
+
+(* ---- model amplitudes and sensitivities, block by block, entry by entry ---- *)
+Import Model.Amplitudes Proofs.BlocksSensProofs.
+
+(* for ANY object whose indexing is pointwise in the grid index: indexing a block gives the
+   rows of that block of `obj[...]` *)
+Theorem amplitudes_block_is_slice : forall (T : Type)
+    (getitem : list Z -> option (list (list (T * T)))) (rowP : Z -> option (list (T * T))),
+  (forall G, getitem G = mapM rowP G) ->
+  forall n P a b, b <= n ->
+  getitem (map Z.of_nat (seq 0 n)) = Some P ->
+  getitem (map Z.of_nat (seq a (b - a))) = Some (rows_slice a b P).
+Proof. intros T getitem rowP H. exact (getitem_chunk_is_slice getitem rowP H). Qed.
+
+(* the blocks of chunk_array concatenated in order are `obj[...]` *)
+Theorem amplitudes_blocks_concat : forall (T : Type)
+    (getitem : list Z -> option (list (list (T * T)))) (rowP : Z -> option (list (T * T))),
+  (forall G, getitem G = mapM rowP G) ->
+  forall n b P, 1 <= b ->
+  getitem (map Z.of_nat (seq 0 n)) = Some P ->
+  mapM (fun ch => getitem (map Z.of_nat (range_of ch))) (chunks n b)
+    = Some (map (fun ch => rows_slice (fst ch) (snd ch) P) (chunks n b))
+  /\ concat (map (fun ch => rows_slice (fst ch) (snd ch) P) (chunks n b)) = P.
+Proof. intros T getitem rowP H. exact (getitem_chunks_concat getitem rowP H). Qed.
+
+(* the two classes built by model_amplitudes_factory *)
+Theorem model_amplitudes_fn_block_is_slice : forall (T : Type) (N : Num T) tx rx ne ng Qtx Qrx Ttx Trx a o,
+  length tx = length rx -> factory tx rx ne ng Qtx Qrx Ttx Trx a = Some o ->
+  forall (S : T -> T -> T * T) Pall lo hi, hi <= ng ->
+  getitem_fn N S o (map Z.of_nat (seq 0 ng)) = Some Pall ->
+  getitem_fn N S o (map Z.of_nat (seq lo (hi - lo))) = Some (rows_slice lo hi Pall).
+Proof. intros T N tx rx ne ng Qtx Qrx Ttx Trx a o H1 H2. exact (getitem_fn_chunk_is_slice N tx rx ne ng Qtx Qrx Ttx Trx a o H1 H2). Qed.
+
+Theorem model_amplitudes_mat_block_is_slice : forall (T : Type) (N : Num T) tx rx ne ng Qtx Qrx Ttx Trx a o,
+  length tx = length rx -> factory tx rx ne ng Qtx Qrx Ttx Trx a = Some o ->
+  forall (P : T) (M : list (list (T * T))) Pall lo hi, mat_ok M = true -> hi <= ng ->
+  getitem_mat N P M o (map Z.of_nat (seq 0 ng)) = Some Pall ->
+  getitem_mat N P M o (map Z.of_nat (seq lo (hi - lo))) = Some (rows_slice lo hi Pall).
+Proof. intros T N tx rx ne ng Qtx Qrx Ttx Trx a o H1 H2. exact (getitem_mat_chunk_is_slice N tx rx ne ng Qtx Qrx Ttx Trx a o H1 H2). Qed.
+
+(* ENTRY BY ENTRY, for ANY reduction f of one row (the code's `.sum(axis=1)` of a product, in
+   whatever order NumPy adds the terms of a row) and any block size >= 1: entry p of the
+   blockwise loop is f of row p of the amplitudes *)
+Theorem sensitivity_entries_any_block : forall (T V : Type)
+    (getitem : list Z -> option (list (list (T * T)))) (rowP : Z -> option (list (T * T))),
+  (forall G, getitem G = mapM rowP G) ->
+  forall (f : list (T * T) -> V) (zero : V) n b (row : nat -> list (T * T)), 1 <= b -> 1 <= n ->
+  (forall p, p < n -> rowP (Z.of_nat p) = Some (row p)) ->
+  sens_loop getitem f zero n b = Some (map (fun p => f (row p)) (seq 0 n)).
+Proof. intros T V getitem rowP H. exact (sens_loop_entries getitem rowP H). Qed.
+
+(* any two block sizes >= 1 give the same value, or the same failure *)
+Theorem sensitivity_loop_any_two_blocks : forall (T V : Type)
+    (getitem : list Z -> option (list (list (T * T)))) (rowP : Z -> option (list (T * T))),
+  (forall G, getitem G = mapM rowP G) ->
+  forall (f : list (T * T) -> V) (zero : V) n b b', 1 <= b -> 1 <= b' ->
+  sens_loop getitem f zero n b = sens_loop getitem f zero n b'.
+Proof. intros T V getitem rowP H. exact (sens_loop_block_independent getitem rowP H). Qed.
+
+(* the loop fails exactly when there is no grid point (`None /= numtimetraces`) or a grid
+   point cannot be evaluated — never because of a block size >= 1; block size 0 always fails *)
+Theorem sensitivity_loop_fails_iff : forall (T V : Type)
+    (getitem : list Z -> option (list (list (T * T)))) (rowP : Z -> option (list (T * T))),
+  (forall G, getitem G = mapM rowP G) ->
+  forall (f : list (T * T) -> V) (zero : V) n b, 1 <= b ->
+  (sens_loop getitem f zero n b = None <-> n = 0 \/ exists p, p < n /\ rowP (Z.of_nat p) = None).
+Proof. intros T V getitem rowP H. exact (sens_loop_none_iff getitem rowP H). Qed.
+
+Theorem sensitivity_loop_block_zero_fails : forall (T V : Type)
+    (getitem : list Z -> option (list (list (T * T)))) (f : list (T * T) -> V) zero n,
+  sens_loop getitem f zero n 0 = None.
+Proof. intros T V. exact (@sens_loop_block_zero T V). Qed.
+
+(* the amplitudes given as a materialised (numpoints, numtimetraces) array *)
+Theorem sensitivity_of_ndarray_amplitudes : forall (T V : Type) (A : list (list (T * T)))
+    (f : list (T * T) -> V) zero b, 1 <= b -> 1 <= length A ->
+  sens_loop (take A) f zero (length A) b = Some (map f A).
+Proof. intros T V A. exact (sens_loop_ndarray A). Qed.
+
+(* both public functions, both classes: any two block sizes >= 1, identical results *)
+Theorem sensitivities_any_two_blocks_fn : forall (T : Type) (N : Num T) tx rx ne ng Qtx Qrx Ttx Trx a o,
+  length tx = length rx -> factory tx rx ne ng Qtx Qrx Ttx Trx a = Some o ->
+  forall (S : T -> T -> T * T) w b b', 1 <= b -> 1 <= b' ->
+  sensitivity_uniform_tfm N (getitem_fn N S o) ng (length tx) w b
+  = sensitivity_uniform_tfm N (getitem_fn N S o) ng (length tx) w b'
+  /\ sensitivity_model_assisted_tfm N (getitem_fn N S o) ng (length tx) w b
+     = sensitivity_model_assisted_tfm N (getitem_fn N S o) ng (length tx) w b'.
+Proof. intros T N tx rx ne ng Qtx Qrx Ttx Trx a o H1 H2. exact (sensitivities_block_independent_fn N tx rx ne ng Qtx Qrx Ttx Trx a o H1 H2). Qed.
+
+Theorem sensitivities_any_two_blocks_mat : forall (T : Type) (N : Num T) tx rx ne ng Qtx Qrx Ttx Trx a o,
+  length tx = length rx -> factory tx rx ne ng Qtx Qrx Ttx Trx a = Some o ->
+  forall (P : T) (M : list (list (T * T))) w b b', mat_ok M = true -> 1 <= b -> 1 <= b' ->
+  sensitivity_uniform_tfm N (getitem_mat N P M o) ng (length tx) w b
+  = sensitivity_uniform_tfm N (getitem_mat N P M o) ng (length tx) w b'
+  /\ sensitivity_model_assisted_tfm N (getitem_mat N P M o) ng (length tx) w b
+     = sensitivity_model_assisted_tfm N (getitem_mat N P M o) ng (length tx) w b'.
+Proof. intros T N tx rx ne ng Qtx Qrx Ttx Trx a o H1 H2. exact (sensitivities_block_independent_mat N tx rx ne ng Qtx Qrx Ttx Trx a o H1 H2). Qed.
+
+(* ---- non-vacuity of the statements above (hypotheses satisfiable, values as the real code
+   returns them; the same inputs are replayed on arim in .work/prover_C13_TIE.md) ---- *)
+From Coq Require Floats QArith.
+From Arim Require Base.NumF Base.NumQ.
+
+Section BlocksExamples.
+  Let ex_t1 : list (list Z) := [[1; 5; 3]; [4; 1; 1]; [7; 2; 9]; [0; 0; 0]; [3; 3; 2]]%Z.
+  Let ex_t2c : list (list Z) := [[2; 1; 4]; [0; 0; 1]; [5; 5; 5]; [1; 3; 1]]%Z.   (* time_2.T *)
+  Let ce (t : Z) (k : nat) : cellv Z := Some (t, k).              (* (minimum, index) *)
+  Let ex_res : list (list (cellv Z)) :=
+    [[ce 3 0; ce 1 0; ce 6 0; ce 2 0];
+     [ce 2 1; ce 1 1; ce 6 1; ce 2 2];
+     [ce 3 1; ce 2 1; ce 7 1; ce 5 1];
+     [ce 1 1; ce 0 0; ce 5 0; ce 1 0];          (* cell (3,1): tie 0+0 = 0+0, index 0 *)
+     [ce 4 1; ce 3 0; ce 7 2; ce 3 2]].
+
+  (* time_1 (5,3), time_2 (3,4), block_size 4 (adjusted 2: 3 x 2 tasks), tasks run in reverse *)
+  Example find_minimum_times_example :
+    rows_have 3 ex_t1 /\ rows_have 3 ex_t2c /\ (forall l : list fmt_views, Permutation l (rev l)) /\
+    find_minimum_times Z.ltb Z.add 3 3 ex_t1 ex_t2c 4 2 (@rev _) = inr ex_res /\
+    find_minimum_times Z.ltb Z.add 3 3 ex_t1 ex_t2c 1 1 (fun l => l) = inr ex_res /\
+    find_minimum_times Z.ltb Z.add 3 3 ex_t1 ex_t2c 1000 16 (fun l => l) = inr ex_res /\
+    minplus Z.ltb Z.add ex_t1 ex_t2c = ex_res.
+  Proof.
+    split; [repeat constructor|]. split; [repeat constructor|]. split; [exact (@Permutation_rev _)|].
+    vm_compute. repeat split; reflexivity.
+  Qed.
+
+  Example find_minimum_times_error_example :
+    find_minimum_times Z.ltb Z.add 3 2 ex_t1 ex_t2c 4 2 (fun l => l) = inl ValueError /\
+    find_minimum_times Z.ltb Z.add 0 0 [[]; []] [[]] 5 1 (fun l => l) = inl ZeroDivisionError /\
+    find_minimum_times Z.ltb Z.add 3 3 ex_t1 ex_t2c 5 0 (fun l => l) = inl ValueError /\
+    find_minimum_times Z.ltb Z.add 3 3 ex_t1 ex_t2c 0 2 (fun l => l) = inl ZeroDivisionError /\
+    find_minimum_times Z.ltb Z.add 3 3 ex_t1 ex_t2c (-2) 2 (fun l => l) = inl ZeroDivisionError /\
+    find_minimum_times Z.ltb Z.add 3 3 ex_t1 ex_t2c (-3) 2 (fun l => l)
+      = inr (tab 5 4 (fun _ _ => None)).
+  Proof. vm_compute. repeat split; reflexivity. Qed.
+
+  Example fmt_submit_example :
+    fmt_submit 5 3 4 2 =
+    inr [mkFV [(0,2); (0,3)] [(0,3); (0,2)] [(0,2); (0,2)]; mkFV [(0,2); (0,3)] [(0,3); (2,4)] [(0,2); (2,4)];
+         mkFV [(2,4); (0,3)] [(0,3); (0,2)] [(2,4); (0,2)]; mkFV [(2,4); (0,3)] [(0,3); (2,4)] [(2,4); (2,4)];
+         mkFV [(4,5); (0,3)] [(0,3); (0,2)] [(4,5); (0,2)]; mkFV [(4,5); (0,3)] [(0,3); (2,4)] [(4,5); (2,4)]]
+    /\ py_ceil_div 4 3 = Some 2%Z /\ py_ceil_div (-4) 3 = Some (-1)%Z /\ py_ceil_div (-2) 3 = Some 0%Z
+    /\ py_ceil_div 7 (-2) = Some (-3)%Z /\ py_ceil_div 7 0 = None.
+  Proof. vm_compute. repeat split; reflexivity. Qed.
+
+  Example chunk_array_py_example :
+    normalise_axis 2 (-1) = Some 1 /\
+    chunk_array_py [3; 5] 2 (-1) = inr [[Dots; Sl (Some 0, Some 2)]; [Dots; Sl (Some 2, Some 4)]; [Dots; Sl (Some 4, Some 6)]] /\
+    chunk_array_py [3; 5] 0 (-1) = inl ZeroDivisionError /\ chunk_array_py [3; 5] (-2) (-1) = inr [] /\
+    chunk_array_py [3; 5] 2 2 = inl IndexError /\
+    chunks 5 7 = [(0, 5)] /\ chunks 3 1 = [(0, 1); (1, 2); (2, 3)].
+  Proof. vm_compute. repeat split; reflexivity. Qed.
+
+  (* two accumulating tasks with disjoint cells, both orders *)
+  Example rmw_example :
+    let ts := [mkR [(0, 0); (0, 1)] (fun i j v => v + i + j + 1); mkR [(1, 0)] (fun _ _ v => 2 * v)] in
+    NoDup (flat_map r_cells ts) /\
+    (rrun ts (fun i j => 10 * i + j) 0 1, rrun ts (fun i j => 10 * i + j) 1 0, rrun ts (fun i j => 10 * i + j) 1 1) = (3, 20, 11) /\
+    (rrun (rev ts) (fun i j => 10 * i + j) 0 1, rrun (rev ts) (fun i j => 10 * i + j) 1 0) = (3, 20).
+  Proof.
+    cbv zeta. split.
+    - cbn. repeat constructor; cbn; intuition congruence.
+    - vm_compute. split; reflexivity.
+  Qed.
+
+  Import Coq.Floats.Floats Base.NumF.
+  Let P1 : points := mkPts [0; 3; 0]%float [0; 4; 0]%float [0; 0; 2]%float.
+  Let P2 : points := mkPts [0; 0]%float [0; 4]%float [0; 3]%float.
+  Let prefilled := Some (3, 2, [[99; 99]; [99; 99]; [99; 99]]%float).
+
+  (* 3 x 2 points; block sizes 7 (chunks of 2), 1 (chunks of 1) and 600; a prefilled out *)
+  Example distance_pairwise_example :
+    points_ok P1 = true /\ points_ok P2 = true /\ out_ok P1 P2 prefilled /\ out_ok P1 P2 None /\
+    distance_pairwise NumF P1 P2 None 7 2 (@rev _) = inr (distance_table NumF P1 P2) /\
+    distance_pairwise NumF P1 P2 prefilled 1 1 (fun l => l) = inr (distance_table NumF P1 P2) /\
+    distance_pairwise NumF P1 P2 prefilled 600 3 (@rev _) = inr (distance_table NumF P1 P2) /\
+    option_map (map (firstn 1)) (Some (distance_table NumF P1 P2)) = Some [[0]; [5]; [2]]%float /\
+    distance_pairwise NumF P1 P2 prefilled (-6) 1 (fun l => l) = inr [[99; 99]; [99; 99]; [99; 99]]%float /\
+    distance_pairwise NumF P1 P2 None (-5) 1 (fun l => l) = inl ZeroDivisionError /\
+    distance_pairwise NumF P1 P2 None 6 0 (fun l => l) = inl ValueError /\
+    distance_pairwise NumF P1 P2 (Some (2, 3, [])) 6 1 (fun l => l) = inl InvalidShape /\
+    distance_pairwise NumF (mkPts [0]%float [] [0]%float) P2 None 6 1 (fun l => l) = inl InvalidShape.
+  Proof.
+    split; [reflexivity|]. split; [reflexivity|]. split; [split; reflexivity|]. split; [exact I|].
+    vm_compute. repeat split; reflexivity.
+  Qed.
+
+  Example dist_submit_example :
+    dist_submit 3 2 2 = inr [mkDV [(0,2)] [(0,2)] [(0,2); (0,2)]; mkDV [(2,3)] [(0,2)] [(2,3); (0,2)]] /\
+    sens_submit 5 3 4 2 = inr [Some ([(0,2)], [(0,2); (0,4)], [(0,2); (0,3)]);
+                               Some ([(2,4)], [(2,4); (0,4)], [(2,4); (0,3)]);
+                               Some ([(4,5)], [(4,5); (0,4)], [(4,5); (0,3)])].
+  Proof. vm_compute. split; reflexivity. Qed.
+
+  Import Coq.QArith.QArith Base.NumQ.
+  Local Open Scope Q_scope.
+  Let cq (x y : Q) : Q * Q := (x, y).
+  (* 2 elements, 3 grid points, 4 timetraces (the object of Props/C08.v) *)
+  Let Qtx := [[cq 1 2; cq 3 (-1); cq (1#2) 0]; [cq (-2) 1; cq 0 3; cq 5 (1#4)]].
+  Let Qrx := [[cq 2 0; cq 1 1; cq (-1) 2]; [cq (3#2) (-1); cq 4 0; cq 0 (-2)]].
+  Let Ttx := [[1#4; 1#2; 3#4]; [-(1#4); -(1#2); -(3#4)]].
+  Let Trx := [[1#8; 3#8; 5#8]; [-(1#8); -(3#8); -(5#8)]].
+  Let S (x y : Q) : Q * Q := (1 + 2 * x + 3 * y, x * y).
+  Let tx := [0; 1; 1; -1]%Z.
+  Let rx := [1; 0; -1; 0]%Z.
+  Let w := [1; 1; 2; 1#2].
+
+  Example amplitudes_blocks_example :
+    forall o, factory tx rx 2 3 Qtx Qrx Ttx Trx (1#8) = Some o ->
+      length tx = length rx /\
+      (exists Pall, getitem_fn NumQ S o (map Z.of_nat (seq 0 3)) = Some Pall /\ length Pall = 3%nat /\
+                    getitem_fn NumQ S o (map Z.of_nat (seq 1 (3 - 1))) = Some (rows_slice 1 3 Pall) /\
+                    getitem_fn NumQ S o (map Z.of_nat (seq 2 (3 - 2))) = Some (rows_slice 2 3 Pall) /\
+                    sens_loop (take Pall) (wsum_uniform NumQ w) (0, 0) 3 2 = Some (map (wsum_uniform NumQ w) Pall) /\
+                    sens_loop (take Pall) (wsum_uniform NumQ w) (0, 0) 4 2 = None /\
+                    sens_loop (take Pall) (wsum_uniform NumQ w) (0, 0) 3 0 = None) /\
+      sensitivity_uniform_tfm NumQ (getitem_fn NumQ S o) 3 4 w 1
+        = sensitivity_uniform_tfm NumQ (getitem_fn NumQ S o) 3 4 w 7 /\
+      sensitivity_model_assisted_tfm NumQ (getitem_fn NumQ S o) 3 4 w 2
+        = sensitivity_model_assisted_tfm NumQ (getitem_fn NumQ S o) 3 4 w 3 /\
+      sensitivity_uniform_tfm NumQ (getitem_fn NumQ S o) 3 4 w 2
+        = Some [(53 # 128, -(143 # 256)); (-(435 # 256), -(2707 # 256)); (1263 # 512, 4815 # 256)].
+  Proof.
+    intros o E. vm_compute in E. inversion E; subst o. split; [reflexivity|]. split.
+    - eexists. split; [vm_compute; reflexivity|]. vm_compute. repeat split; reflexivity.
+    - vm_compute. repeat split; reflexivity.
+  Qed.
+End BlocksExamples.
